@@ -257,6 +257,67 @@ func readerVsMissFetch() *sched.Scenario {
 	}
 }
 
+// Q4: a refresh, a miss-fetch of an uncached provider and a reader in one
+// execution: two writers publish one after the other, so a writer that builds
+// its snapshot from stale data undoes the other's publication.
+func refreshAndMissFetch() *sched.Scenario {
+	name := "Q4-refresh-and-miss-fetch-and-reader"
+	return &sched.Scenario{Name: name, AfterStep: afterStep(map[string]bool{"R1": true}),
+		Setup: func(e *sched.Exec) ([]sched.Thread, func()) {
+			src := &source{e: e, recs: map[peer.ID]int{pP: 1}}
+			pc, err := pcache.New(pcache.WithSource(src), pcache.WithRefreshInterval(0), pcache.WithTTL(time.Hour))
+			if err != nil {
+				panic(err)
+			}
+			w := &world{pc, src}
+			src.gated = true
+			return []sched.Thread{
+				{Name: "W", Fn: func() {
+					src.mu.Lock()
+					src.recs[pP] = 2
+					src.mu.Unlock()
+					e.Log("W Refresh begin")
+					err := pc.Refresh(context.Background())
+					e.Log("W Refresh end err=%v", err)
+				}},
+				{Name: "F", Fn: func() {
+					e.Log("F Get(U) begin")
+					pi, err := pc.Get(context.Background(), pU)
+					e.Log("F Get(U) end found=%v err=%v", pi != nil, err)
+				}},
+				readerThread(e, w, "R1"),
+			}, func() {
+				// when everything has come to rest the cache must hold what the last
+				// completed update published: a reader arriving now sees the refreshed record
+				src.gated = false
+				pi, err := pc.Get(context.Background(), pP)
+				e.Log("END Get P=%d err=%v", verOf(pi), err)
+			}
+		},
+		Check: func(e *sched.Exec) []sched.Finding {
+			out := checkReaders(e, name, []string{"W", "F", "R1"}, map[int]bool{1: true, 2: true})
+			// An update was published only if the source was actually read inside the
+			// refresh: Refresh returns nil WITHOUT refreshing when it finds the write lock
+			// taken (it assumes another refresh is in progress - also when the holder is a
+			// miss-fetch). That is no update, so nothing can be lost then.
+			inRefresh, fetched, published := false, false, false
+			for _, l := range e.Obs() {
+				switch {
+				case l == "W Refresh begin":
+					inRefresh = true
+				case inRefresh && l == "source FetchAll end":
+					fetched = true
+				case l == "W Refresh end err=<nil>":
+					published, inRefresh = fetched, false
+				case published && strings.HasPrefix(l, "END Get P=") && !strings.HasPrefix(l, "END Get P=2 "):
+					out = append(out, sched.Finding{Sig: name + ":completed-update-lost", Msg: "the refresh read version 2 from the source and completed, yet at the end " + l})
+				}
+			}
+			return out
+		},
+	}
+}
+
 // Q3: the refresh interval has elapsed; two readers look up: exactly one automatic refresh
 func autoRefreshOnce() *sched.Scenario {
 	name := "Q3-auto-refresh-once"
@@ -293,7 +354,7 @@ func autoRefreshOnce() *sched.Scenario {
 
 func TestCheck(t *testing.T) {
 	r := vp.New("C07", "model_checking",
-		"scenarios on the real ProviderCache built with the instrumentation overlay, with a fake source whose Fetch/FetchAll are scheduling points (a writer can be parked inside a source call while it holds the write lock): Q1 one and two readers (Get, List, GetResults, Get of a provider cached by preload) vs a Refresh that moves that provider from version 1 to 2 and adds another, without and with filler providers so that the refresh rebuilds the main map; Q2 a reader vs a lookup of an uncached provider (miss-fetch); Q3 two lookups after the refresh interval elapsed (virtual time). All interleavings at the scheduling points (atomic load/store/CAS of the snapshot pointer and refresh flag, write-lock channel operations, spawns, source calls, observations) up to the preemption bound. At every quiescence a reader released last must be parked at its next point or finished (otherwise it waits for a writer). states = distinct decision states; transitions = scheduling steps; traces = executions of the real cache.",
+		"scenarios on the real ProviderCache built with the instrumentation overlay, with a fake source whose Fetch/FetchAll are scheduling points (a writer can be parked inside a source call while it holds the write lock): Q1 one and two readers (Get, List, GetResults, Get of a provider cached by preload) vs a Refresh that moves that provider from version 1 to 2 and adds another, without and with filler providers so that the refresh rebuilds the main map; Q2 a reader vs a lookup of an uncached provider (miss-fetch); Q4 a refresh, a miss-fetch and a reader together (two writers publishing one after the other), with a final read once everything is at rest; Q3 two lookups after the refresh interval elapsed (virtual time). All interleavings at the scheduling points (atomic load/store/CAS of the snapshot pointer and refresh flag, write-lock channel operations, spawns, source calls, observations) up to the preemption bound. At every quiescence a reader released last must be parked at its next point or finished (otherwise it waits for a writer). states = distinct decision states; transitions = scheduling steps; traces = executions of the real cache.",
 		"data races are NOT decided here: a cooperative scheduler's hand-offs are happens-before edges; they are the business of the separate free-running -race pass of the same operations (package c07race, run by the driver, sampled and declared non-exhaustive)",
 		"at most 2 readers; sequential consistency of the atomics is assumed",
 	)
@@ -306,7 +367,7 @@ func TestCheck(t *testing.T) {
 	if vp.Thorough() {
 		bound = 3
 	}
-	scs := []*sched.Scenario{readersVsRefresh(1, 0), readersVsRefresh(1, 3), readerVsMissFetch(), autoRefreshOnce(), readersVsRefresh(2, 0)}
+	scs := []*sched.Scenario{readersVsRefresh(1, 0), readersVsRefresh(1, 3), readerVsMissFetch(), autoRefreshOnce(), refreshAndMissFetch(), readersVsRefresh(2, 0)}
 	r.Bounds(map[string]any{"preemption_bound": bound, "scenarios": len(scs)})
 	budget := 0.0
 	if v := os.Getenv("VERIF_BUDGET_S"); v != "" {
